@@ -185,7 +185,33 @@ func (s *Server) Close() {
 	}
 }
 
+// Table names are "projects/<project>/instances/<instance>/tables/<id>" with a table id of the
+// documented format. Anything else ("t2/../t1", "./t1", "..", a parent that itself contains
+// "/tables/") would name, or lie inside, another table's files on persistent storage.
+var (
+	validTableID     = regexp.MustCompile(`^[_a-zA-Z0-9][-_.a-zA-Z0-9]*$`)
+	validTableParent = regexp.MustCompile(`^projects/[^/]+/instances/[^/]+$`)
+)
+
+func validParent(parent string) bool {
+	if !validTableParent.MatchString(parent) {
+		return false
+	}
+	for _, seg := range strings.Split(parent, "/") {
+		if seg == "." || seg == ".." {
+			return false
+		}
+	}
+	return true
+}
+
 func (s *server) CreateTable(ctx context.Context, req *btapb.CreateTableRequest) (*btapb.Table, error) {
+	if !validTableID.MatchString(req.TableId) {
+		return nil, status.Errorf(codes.InvalidArgument, "invalid table id %q", req.TableId)
+	}
+	if !validParent(req.Parent) {
+		return nil, status.Errorf(codes.InvalidArgument, "invalid parent %q", req.Parent)
+	}
 	tbl := req.Parent + "/tables/" + req.TableId
 
 	s.mu.Lock()
